@@ -31,6 +31,7 @@ if ABSTRACT_BYTES:
     BYTES = z3.DeclareSort("Bytes")
     CAT = z3.Function("cat", BYTES, BYTES, BYTES)
     BLEN = z3.Function("blen", BYTES, INT)
+    BSLICE = z3.Function("bslice", BYTES, INT, INT, BYTES)
 else:
     BYTES = z3.StringSort()
 BOOL = z3.BoolSort()
@@ -742,7 +743,11 @@ class Executor(object):
 
     def seq_slice(self, s, lo, hi, p, ln):
         if ABSTRACT_BYTES:
-            raise Unsupported("byte-string slicing in abstract-bytes mode (line %s)" % ln)
+            # no law about slices is available in this mode: an uninterpreted function
+            # (sound, and enough to keep going when changed code starts slicing stems)
+            lo_ = z3.IntVal(0) if lo is None else to_z3(self.unwrap(lo, p, "slice", ln))
+            hi_ = z3.IntVal(-1) if hi is None else to_z3(self.unwrap(hi, p, "slice", ln))
+            return BSLICE(s, lo_, hi_)
         n = z3.Length(s)
         lo = z3.IntVal(0) if lo is None else to_z3(self.unwrap(lo, p, "slice", ln))
         hi = n if hi is None else to_z3(self.unwrap(hi, p, "slice", ln))
